@@ -22,6 +22,9 @@ impl Mark for Header {
   /// the existing marked status
   #[inline]
   fn mark(&self) -> bool {
+    #[cfg(feature = "verif")]
+    crate::verif::check_live(self as *const Header as *const u8);
+
     self.marked.swap(true, Ordering::Release)
   }
 }
